@@ -8,6 +8,12 @@ from ..lib.universe import (Built, TreeGen, from_py, gen_universe, iter_nodes, n
                             universe_to_json)
 from .c15 import gen_origin, mk_origin
 
+try:  # import cost (lark builds two parsers) stays outside the per-case alarm of the worker
+    import pyoak.match.pattern  # noqa: F401
+    import pyoak.match.xpath  # noqa: F401
+except Exception:  # pragma: no cover - the main process may run without pyoak on its path
+    pass
+
 ID = "C08"
 ENTRY = "C08"
 RUNNER = "run_C08"
@@ -362,8 +368,8 @@ def is_fixed(u, nt, k):
 
 def gen_cases(rng, tier):
     cases = []
-    n_uni = 14 if tier == "quick" else 300
-    per_uni = 22 if tier == "quick" else 60
+    n_uni = 14 if tier == "quick" else 200
+    per_uni = 22 if tier == "quick" else 50
     for _ in range(n_uni):
         u = gen_universe(rng)
         uj = universe_to_json(u)
